@@ -187,16 +187,20 @@ package rlp
 //@   requires s != nil && ErrCanonInt != nil
 //@   requires [table!init] reflBigPtr(val)
 //@   ensures [canon] result == nil ==> @select(ghost(slen), ref(s)) == 0 || @select(ghost(sfirst), ref(s)) != 0
-//@   modifies *s, ghost(slen), ghost(sfirst), heap("math/big.Int")
+//@   modifies *s, ghost(slen), ghost(sfirst), heap("math/big.Int"), ghost(lastkind)
 
 // Byte arrays in the streaming decoder (C08): an accepted value consumes its input exactly once - after a
 // successful decode the stream is re-armed (kind < 0), so the bytes just decoded cannot be handed out again to
 // the next field. Kind / readUint / readFull are trusted stubs stating what they do to the cached kind.
+// ghost lastkind[s]: the kind Stream.Kind announced last for stream s (a history variable: the cached kind itself is
+// overwritten when the stream is re-armed).
+//@ ghost lastkind (Array Int {Kind})
 //@ func Stream.Kind
 //@   option trusted
 //@   requires s != nil
 //@   ensures err == nil ==> s.kind == kind && s.size == size && (kind == Byte || kind == String || kind == List)
-//@   modifies *s
+//@   ensures [announced] err == nil ==> @select(ghost(lastkind), ref(s)) == kind
+//@   modifies *s, ghost(lastkind)
 
 //@ func Stream.readUint
 //@   option trusted
@@ -218,7 +222,7 @@ package rlp
 //@   ensures [armed] result1 == nil ==> s.kind == 0 - 1
 //@   # a fixed-width integer: the decoded value fits the width asked for
 //@   ensures [fits]  result1 == nil && 8 <= maxbits && maxbits < 64 ==> result0 >> uint64(maxbits) == 0
-//@   modifies *s
+//@   modifies *s, ghost(lastkind)
 
 // decodeUint hands the stream reader the width of the TARGET type: what it stores fits that width, so nothing is
 // truncated silently and an over-wide (non-canonical for the type) integer is rejected.
@@ -226,14 +230,14 @@ package rlp
 //@   property C08
 //@   requires s != nil
 //@   ensures [width] result == nil && 8 <= typeBits(reflTypeOf(val)) && typeBits(reflTypeOf(val)) < 64 ==> ghost(lastsetuint) >> uint64(typeBits(reflTypeOf(val))) == 0
-//@   modifies *s, ghost(lastsetuint)
+//@   modifies *s, ghost(lastsetuint), ghost(lastkind)
 
 //@ func decodeByteArray
 //@   property C08
 //@   requires s != nil
 //@   requires [table!init] reflByteArr(val)
 //@   ensures [consumed] result == nil ==> s.kind == 0 - 1
-//@   modifies *s, heap("uint8"), ghost(lastsetuint)
+//@   modifies *s, heap("uint8"), ghost(lastsetuint), ghost(lastkind)
 
 // SplitString as used by the trie node decoder (C02): ghost splitlen is the length of the content the last
 // successful SplitString handed out (a history variable for contracts of its callers).
@@ -242,3 +246,30 @@ package rlp
 //@   option trusted
 //@   ensures [content] result2 == nil ==> ghost(splitlen) == len(result0) && ref(result0) == ref(b) && len(result0) <= len(b)
 //@   modifies ghost(splitlen)
+
+// Optional pointers (rlp:"nil", C08): only an EMPTY value stands for nil. A single byte below 0x80 also has size 0 -
+// it lives in the type tag - but it is a value: the element decoder must see it. ghost elemdec counts the calls of
+// element decoders (the function-valued field typeinfo.decoder, trusted).
+//@ ghost elemdec Int
+//@ func typeinfo.decoder
+//@   option trusted
+//@   ensures ghost(elemdec) == old(ghost(elemdec)) + 1
+//@   modifies *arg0, ghost(elemdec), ghost(lastkind), ghost(lastsetuint), ghost(slen), ghost(sfirst)
+
+//@ func ext_reflectZero
+//@   option trusted extern=reflect.Zero
+//@   modifies nothing
+//@ func ext_reflectNew
+//@   option trusted extern=reflect.New
+//@   modifies nothing
+//@ func ext_reflectIsNil
+//@   option trusted extern=(reflect.Value).IsNil
+//@   modifies nothing
+//@ func ext_reflectElem
+//@   option trusted extern=(reflect.Value).Elem
+//@   modifies nothing
+
+//@ func makeOptionalPtrDecoder$1
+//@   property C08
+//@   requires s != nil && etypeinfo != nil && etypeinfo.decoder != nil
+//@   ensures [valueseen] err == nil && ghost(elemdec) == old(ghost(elemdec)) ==> @select(ghost(lastkind), ref(s)) != Byte
